@@ -50,7 +50,7 @@ THEOREMS = [
 ]
 RULE = (
     "case = (accountant, inner optimizer, sigma0, C0, sample rate, noise schedule, clip schedule, op sequence over "
-    "{log b, skip b, ns, cs, save, load, sd, sdhist, loadsd, dicthist, loadinto m, loadbad k}) drawn from VERIF_SEED; "
+    "{log b, skip b, ns, cs, save, load, sd, sdhist, loadsd, loadinto m, loadbad k}) drawn from VERIF_SEED; "
     "non-trivial iff a logical step precedes a save AND a logical step follows the matching load (a cut inside a real "
     "history); distinct by (accountant, optimizer, schedule kinds, op sequence)"
 )
@@ -60,6 +60,7 @@ TRUSTED = [
     "epsilon is a function of the accountant's class and history only (checked on the real accountants at every load)",
 ]
 PARTIAL = [
+    "aliasing of the loaded state_dict (`self.history = state_dict['history']`, no copy) is proved for the model as coded (load_aliasing_witness) but is NOT part of the correspondence verdict: a defensive copy on load would be harmless for the property",
     "resume ≡ uninterrupted is proved under the explicit proviso that the fresh optimizer's live sigma and C equal the saved values (finding D8: they are not persisted); full statement proved only for the repaired variant",
     "cut points are those between logical steps (pending summed_grad / skip queue are not persisted; counterexample theorem for a cut inside a virtual step)",
     "secure_mode, distributed and ghost-clipping engines are not exercised; adaptive clipping only by the search (finding: its live clip bound is not persisted either)",
@@ -116,7 +117,7 @@ def gen_case(rng, max_ops, extras=True):
         post, b = seg(b, True)
         ops = pre + ["save"] + mid + ["load"] + post
         if extras and rng.random() < 0.5:
-            ops.insert(rng.randint(len(pre) + len(mid) + 2, len(ops)), rng.choice(["dicthist", "sd"]))
+            ops.insert(rng.randint(len(pre) + len(mid) + 2, len(ops)), "sd")
         return {"cfg": cfg, "ops": ops}
     ops, b, pend = [], 0, 0
     n = rng.randint(3, max_ops)
@@ -142,7 +143,7 @@ def gen_case(rng, max_ops, extras=True):
         elif extras and saved and r < 0.95:
             ops.append("loadbad " + rng.choice(["empty", "nohist", "nomech", "none"]))
         elif extras:
-            x = rng.choice(["sd", "sdhist", "loadsd", "dicthist"])
+            x = rng.choice(["sd", "sdhist", "loadsd"])
             if x == "sd":
                 sd = True
             if (x in ("sdhist", "loadsd") and not sd) or (x == "dicthist" and not ret):
@@ -463,10 +464,34 @@ def alias_oracle(cfg):
     return None
 
 
+def regen_oracle(cfg):
+    """save → fresh → load → train → save(checkpoint_dict = the dict load returned) → fresh → load:
+    the second-generation checkpoint must restore the state at the SECOND save (ledger, parameters)"""
+    a = R.RealEng(cfg)
+    for o in ("log 0", "log 1", "save", "load", "log 2", "log 3", "log 4"):
+        r = a.do(o)
+        if isinstance(r, str) and r.startswith("err"):
+            return None
+    at_save = snapshot(a, False)
+    r = a.do("saveret")
+    if isinstance(r, str) and r.startswith("err"):
+        return ("C16:regen:save-raises", f"save_checkpoint(checkpoint_dict=<dict returned by load_checkpoint>) raised {r}", {})
+    r = a.do("load")
+    if isinstance(r, str):
+        return ("C16:regen:load-raises", f"loading the second-generation checkpoint raised {r}", {})
+    after = snapshot(a, False)
+    for key, what in (("history", "accountant history"), ("module", "module parameters"), ("optimizer", "inner optimizer state_dict")):
+        d = tdiff(at_save[key], after[key])
+        if d != 0.0:
+            return (f"C16:regen:{key}", f"second-generation checkpoint (save_checkpoint(checkpoint_dict=<dict returned by load_checkpoint>)): {what} after load "
+                    f"differs from the value at the save (max abs diff {d}): at save {str(at_save[key])[:200]}, after load {str(after[key])[:200]}", {})
+    return None
+
+
 def case_oracle(case):
     """oracle used when a correspondence case disagrees: evaluate the property around that case"""
     cfg = dict(case["cfg"])
-    for orc in (reject_oracle, alias_oracle):
+    for orc in (reject_oracle, alias_oracle, regen_oracle):
         res = orc(cfg)
         if res:
             return res
@@ -534,7 +559,7 @@ def run(ctx):
                                 ops.append(o)
                         cfg = {"mech": mech, "opt": "adam", "sigma0": 1.1, "c0": 1.5, "nb": 10,
                                "ns": ("none",) if mech == "gdp" else ("step", 0.5, 2), "cs": ("exp", 0.9), "kind": "token", "seed": 1}
-                        cases.append({"cfg": cfg, "ops": ops + ["save", "load", f"log {b}", "cs", "ns", f"log {b + 1}", "dicthist"]})
+                        cases.append({"cfg": cfg, "ops": ops + ["save", "load", f"log {b}", "cs", "ns", f"log {b + 1}"]})
             ctx.extra["exhaustive_small_scope"] = "all op prefixes of length ≤ 4 over {log, skip, ns, cs} (not ending inside a virtual step) × 3 accountants, then save/load/continue"
         run_cases(ctx, cases, variant)
         # 2. replay of the Lean witnesses on the real code + known findings
@@ -557,7 +582,7 @@ def run(ctx):
             if res:
                 ctx.property_failure(res[0], res[1], dict(res[2], failing_input=scn))
         for mech in MECHS:
-            for orc in (reject_oracle, alias_oracle):
+            for orc in (reject_oracle, alias_oracle, regen_oracle):
                 cfg = {"mech": mech, "opt": "sgdm", "sigma0": 1.0, "c0": 1.0, "nb": 10, "ns": ("none",), "cs": ("none",), "kind": "token", "seed": 3}
                 res = orc(cfg)
                 ctx.count("search:" + orc.__name__)
@@ -572,7 +597,7 @@ def replay(ctx, rp):
         res = None
         if "oracle" in fi:
             res = {"lambda_pickle": lambda: lambda_pickle_oracle(), "reject_oracle": lambda: reject_oracle(fi["cfg"]),
-                   "alias_oracle": lambda: alias_oracle(fi["cfg"])}[fi["oracle"]]()
+                   "alias_oracle": lambda: alias_oracle(fi["cfg"]), "regen_oracle": lambda: regen_oracle(fi["cfg"])}[fi["oracle"]]()
         elif "scenario" in rp:
             res = resume_oracle(rp["scenario"], eps=False)
         elif "cut" in fi:
